@@ -80,14 +80,14 @@ def generate_consts():
 
 def lean_build_and_audit(pid):
     st = LeanStatus()
-    ok, log = generate_consts()
-    if not ok:
-        st.consts_ok = False
-        st.build_log = "gen_consts failed:\n" + log
     lock = os.path.join(LEAN, ".build.lock")
     import fcntl
     with open(lock, "w") as lf:
         fcntl.flock(lf, fcntl.LOCK_EX)
+        ok, log = generate_consts()
+        if not ok:
+            st.consts_ok = False
+            st.build_log = "gen_consts failed:\n" + log
         rc, log = _run(["lake", "build", f"Pymc.Props.{pid}", "pymc-driver"], cwd=LEAN, timeout=3600)
         st.build_ok = rc == 0
         st.build_log += log[-6000:]
